@@ -14,7 +14,7 @@ PROPS = {
                      "that those callers pass the expression they were given is part of C02's statement-level units"],
         assumptions=["wf(skel(input)) is assumed of every parsed input (parser guarantee): operator tokens match their variant, operands fit",
                      "leaf formatters (calls, tables, functions, vars, if-expressions, interpolated strings, type assertions) keep their identity (class C stubs)"]),
-    "C08": dict(units=["ctx", "block"],
+    "C08": dict(units=["ctx", "block", "lib"],
         explanation="should_format_node (real text): inside an ignore region or under a `stylua: ignore` directive the decision is Skip. "
                     "format_stmt / format_last_stmt: Skip => the node is returned unchanged. format_block (real loop, inductive invariant over the "
                     "peekable iterator): for every statement whose decision (under the context folded from the ignore start/end toggles) is Skip, the "
@@ -22,17 +22,17 @@ PROPS = {
         not_decided=["the string matching that recognises the directive text inside a comment (comment.lines().map(trim) — str iterators): assumed as has_ignore()/toggled()",
                      "table fields (format_field / format_multiline_table) and require-sorting inside ignore regions: see units table / sort when present"],
         assumptions=["Block::stmts_with_semicolon / with_stmts / Peekable::next/peek behave as sequences (class A/B)"]),
-    "C09": dict(units=["ctx", "block"],
+    "C09": dict(units=["ctx", "block", "lib"],
         explanation="should_format_node (real text) returns NotInRange iff start < range.start or end > range.end for all positions and bounds. "
                     "format_stmt / format_last_stmt: NotInRange => only nested blocks may change (stmt_block::*, assumed). format_block: an out-of-range "
                     "statement keeps its semicolon token and trailing trivia (pair pushed as returned), in the same position.",
         not_decided=["in-range statements come out as in whole-file formatting (relates two runs)", "stmt_block::format_stmt_block touches only nested blocks (assumed, class C)"],
         assumptions=[]),
-    "C02": dict(units=["expr", "block"],
+    "C02": dict(units=["expr", "block", "lib"],
         explanation="expression spine: same obligations as C05 (operator tree, leaves, operators)",
         not_decided=["statement/block/args/token layers are decided in their own units (see runs)"],
         assumptions=[]),
-    "C01": dict(units=["expr", "block"],
+    "C01": dict(units=["expr", "block", "lib"],
         explanation="necessary conditions only: `- -x` guard on both paths, right-open expressions never freed under an operator",
         not_decided=["whole-grammar printer correctness"], assumptions=[]),
 }
@@ -75,7 +75,12 @@ BLOCK_WITNESSES = [
     w("local a = 1;\n(f)()\nf();\n(g).x = 1\nrepeat until x;\n(h)()\n", oracle="selfverify"),
     w("x += y;\n(f)()\nx -= 1;\n(g).y += 2\n", oracle="selfverify", syntax="luau"),
 ]
+LIB_WITNESSES = [
+    w("-- stylua: ignore\nlocal t = {\n   1,\n      2 }\nlocal   x = 1\n", oracle="contains", contains="local t = {\n   1,\n      2 }\n", line_endings="Windows"),
+    w("local s = [[a\nb]]\nlocal   x = 1 -- c\n", oracle="selfverify"),
+]
 WITNESSES = {
+    "C01.output_is_printed_ast": LIB_WITNESSES, "C01.verified": LIB_WITNESSES, "C12.sort_iff_enabled": LIB_WITNESSES, "C02.whole_ast": LIB_WITNESSES,
     "C08.": BLOCK_WITNESSES, "C09.": BLOCK_WITNESSES, "C01.semicolon": BLOCK_WITNESSES[-2:], "C01.next_starts": BLOCK_WITNESSES[-2:],
     "C05.": EXPR_WITNESSES,
     "C01.double_minus_guard": EXPR_WITNESSES[1:3],
